@@ -11,7 +11,6 @@ pub fn prop() -> HistProp {
     let mut rc = RunCfg::new(&[Aspect::Regions, Aspect::Panic, Aspect::Budget]);
     rc.regions = true;
     rc.flush_each = true;
-    rc.known.dst_inside_src = true;
     let mut gc = GenCfg::mixed();
     gc.gen_geom_pct = 50;
     gc.tiny_free_pct = 30;
